@@ -550,7 +550,8 @@ def c05_discs(prop, recs, jobs, verdicts):
         if rec["error"]:
             if rec["error"].startswith("SLOW") and j["mode"] == "depth":
                 continue        # a fixed-depth search may take as long as it takes: counted, not judged
-            kind = "search-hangs" if rec["error"].startswith("HANG") else "search-does-not-stop" if rec["error"].startswith("SLOW") else "search-panics"
+            kind = ("search-hangs" if rec["error"].startswith("HANG") else "search-does-not-stop" if rec["error"].startswith("SLOW")
+                    else "search-crashes-the-engine" if rec["error"].startswith("CRASH") else "search-panics")
             d(kind, kind + "/" + j["mode"], rec, {"error": rec["error"], "tag": j["tag"], "cfg": j["cfg"]})
             continue
         v = verdicts[rec["id"]]
@@ -626,6 +627,14 @@ def check_C05(tier):
         for pre in ("other", "same", "deeper"):
             add(n, "depth", "prefill", depth=3, prefill=pre)
             add(n, "nodes", "prefill", nodes=300, prefill=pre)
+    # the fifty-move rule inside the tree: middlegame positions set up with the half-move clock just below 100 and searched
+    # deep enough for lines (and hash-table chains) to run into the draw
+    for n in normal[npos + 40:npos + (46 if quick else 100)]:
+        for hm in (94, 97, 99):
+            pos = dict(n["pos"], hmc=hm)
+            nn = {"pos": pos, "root": pos, "path": [], "kinds": []}
+            for d in (4, 5, 6):
+                add(nn, "depth", "near-fifty", depth=d)
     # roots that are already drawn by rule but have legal moves
     for n in drawn[:6 if quick else 60]:
         add(n, "depth", "drawn-root", depth=2)
@@ -738,8 +747,8 @@ def check_C07(tier):
     # terminal classifications, de-duplicated by position and kind
     events = {}
     for r in recs:
-        if r["error"] and r["error"].startswith("SLOW"):
-            continue
+        if r["error"] and r["error"].startswith(("SLOW", "CRASH")):
+            continue        # (a search that brings the engine down is C05's business)
         if r["error"]:
             d = {"prop": "C07", "kind": "search-fails", "sig": "search-fails", "fen": r["fen"], "detail": r["error"], "replay": {"job": byid[r["id"]]}}
             ck.discs.append(d)
@@ -921,7 +930,7 @@ def check_C13(tier):
     slow = []
     for r in recs:
         j = byid[r["id"]]
-        if r["error"] and r["error"].startswith("SLOW") and j["mode"] == "depth":
+        if r["error"] and ((r["error"].startswith("SLOW") and j["mode"] == "depth") or r["error"].startswith("CRASH")):
             continue
         if r["error"]:
             disc("search-fails", "search-fails", r["fen"], r["error"], {"job": j})
@@ -1119,7 +1128,7 @@ def check_C06(tier):
         j = byid[r["id"]]
         kind, iid, bits = j["tag"].split(":")
         iid, bits = int(iid), int(bits)
-        if r["error"] and r["error"].startswith("SLOW"):
+        if r["error"] and r["error"].startswith(("SLOW", "CRASH")):
             continue
         if r["error"]:
             disc("search-fails", "search-fails", r["fen"], r["error"], j)
